@@ -84,7 +84,6 @@ pub fn oom_mode<const V: u32>(d: &mut Driver<V>, p: &Params, heap_mb: usize, is_
         let mut failed = 0;
         while live < live_target && failed < 3 {
             safepoint();
-            let prev = Driver::<V>::root_get(0, 0);
             // the chain alternates 4 KB objects (default space) and 60 KB objects (large object
             // space under most plans) so that few objects hold the live data
             let csize = if (live / 4096) % 8 == 0 { 4096 } else { 61440 };
@@ -93,6 +92,8 @@ pub fn oom_mode<const V: u32>(d: &mut Driver<V>, p: &Params, heap_mb: usize, is_
                 failed += 1;
                 continue;
             }
+            // read the chain head after the allocation: the allocation may have collected
+            let prev = Driver::<V>::root_get(0, 0);
             // new.f[0] = prev ; root0 = new  (through the barrier)
             if prev != 0 {
                 d.set_root(0, 2, prev);
@@ -132,12 +133,6 @@ pub fn oom_mode<const V: u32>(d: &mut Driver<V>, p: &Params, heap_mb: usize, is_
                 if is_nogc && size > 4096 && size <= heap * 2 {
                     // NoGC cannot collect: a request that fills the heap at a safepoint panics by
                     // design ("GC triggered in nogc"); precondition, not generated
-                    continue;
-                }
-                // Large overcommitted requests (several chunks of the large object space close to
-                // the space's 2 x heap address range) are a recorded defect area (KNOWN_FINDINGS.json):
-                // only the probe run (--bigovercommit) issues them.
-                if opts.allow_overcommit && size > heap / 16 && size <= heap * 2 && !flag("bigovercommit") {
                     continue;
                 }
                 if opts.allow_overcommit && size > heap * 2 && size < (1usize << 40) {
